@@ -39,10 +39,13 @@ pub(crate) fn run() -> Result<(), Error> {
     assert!(deps.iter().all(|d| d != &target));
 
     // Build the known dependencies of our primary target.  This *does* require
-    // grabbing locks.
+    // grabbing locks.  They are dependencies of the primary target, not of
+    // whichever target's script happens to be running (REDO_TARGET), so don't
+    // let redo-ifchange record them against that one.
     let status = Command::new("redo-ifchange")
         .args(deps.iter().cloned())
         .env(ENV_NO_OOB, "1")
+        .env_remove("REDO_TARGET")
         .spawn()?
         .wait()?;
     if !status.success() {
